@@ -248,9 +248,11 @@ func main() {
 				}
 				// the creating goroutine stores inline, right after sharing the carrier: the only
 				// non-local instruction on the tainted path is that store
-				for _, t := range []string{"field", "map", "chan"} {
+				for _, t := range []string{"field", "map", "chan", "selectsend"} {
 					scs = append(scs, &gen.TScenario{ID: len(scs), Dir: "m2g", Transport: t, Share: s, Via: "inline", Sync: true})
 				}
+				// a store made inside a method reached through an interface call, pointer as parameter
+				scs = append(scs, &gen.TScenario{ID: len(scs), Dir: "m2g", Transport: "field", Share: s, Via: "ifacecall", Sync: true})
 			}
 		}
 		runProgram(rep, fmt.Sprintf("gen%d", p), scs, runs, "", "")
